@@ -887,7 +887,24 @@ func (c *Check) pricingTextPairs(rule string) {
 				continue
 			}
 			n++
-			ok := changed && setP != nil && setP.String() == fmt.Sprintf("(res 0 (%s %s))", c.nParsePricing(), text)
+			ok := setP != nil && setP.String() == fmt.Sprintf("(res 0 (%s %s))", c.nParsePricing(), text)
+			if !ok && setP != nil {
+				// the terms stored are parsed from a text the path has established to equal the stored text
+				if b, m := setP.Match(fmt.Sprintf("(res 0 (%s $X))", c.nParsePricing())); m {
+					if pp.Facts.Holds(mk("==", b["$X"], text), true) || pp.Facts.Holds(mk("==", text, b["$X"]), true) {
+						ok = true
+					}
+				}
+			}
+			whyEq := ""
+			if changed && setP == nil {
+				// the write may be skipped when the parsed terms of the new text are the terms already stored
+				var eq bool
+				eq, whyEq = c.knownEqualToStored(pp.Facts, "0x06", parseTerm(fmt.Sprintf("(res 0 (%s %s))", c.nParsePricing(), text)))
+				if eq {
+					continue
+				}
+			}
 			if ok {
 				// stored under the binding's own key
 				nm, pv := field("ServiceBinding", "ServiceName", B), field("ServiceBinding", "Provider", B)
@@ -901,6 +918,9 @@ func (c *Check) pricingTextPairs(rule string) {
 			d := fmt.Sprintf("pricing text changed=%v, parsed pricing stored=%v", changed, setP != nil)
 			if setP != nil {
 				d += " as " + shortTerm(setP)
+			}
+			if whyEq != "" {
+				d += "; the write is skipped under an equality that is not one of the whole record: " + whyEq
 			}
 			if seen[d] {
 				continue
